@@ -289,7 +289,18 @@ def real_casts(e):
     """sub-expressions of e that turn a (possibly complex) array into a real one: dtype=float in a constructor / astype(float),
     `.real`, np.real(..) - returns [(node, text)].  Magnitudes (abs) are values of their own, not casts, and are not listed."""
     out = []
+    # what sits in an index position (`x[<here>]`, the index argument of take / delete) selects values, it is not one of them: a cast there
+    # (an index list made `dtype=int`) says nothing about the array
+    idx_nodes = set()
     for n in ast.walk(e):
+        if isinstance(n, ast.Subscript):
+            idx_nodes |= {id(y) for y in ast.walk(n.slice)}
+        elif isinstance(n, ast.Call) and src(n.func).split(".")[-1] in ("take", "delete", "take_along_axis", "isin", "in1d", "setdiff1d") and len(n.args) >= 2:
+            for a_ in n.args[1:]:
+                idx_nodes |= {id(y) for y in ast.walk(a_)}
+    for n in ast.walk(e):
+        if id(n) in idx_nodes:
+            continue
         if isinstance(n, ast.Call):
             for k in n.keywords:
                 if k.arg == "dtype" and _is_real_dtype(k.value):
@@ -2721,6 +2732,23 @@ def attr_store_status(fi, at_node, attr_src):
     return None, None
 
 
+def updated_copy_field(a):
+    """`<obj>.model_copy(update={"f": v, ..}).f` is v; a field the update does not name is the field of <obj> (pydantic copies; also
+    `.copy(update=..)`)"""
+    for _ in range(4):
+        if isinstance(a, ast.Attribute) and isinstance(a.value, ast.Call) and isinstance(a.value.func, ast.Attribute) and a.value.func.attr in ("model_copy", "copy"):
+            upd = kwarg(a.value, "update")
+            if isinstance(upd, ast.Dict) and all(isinstance(k_, ast.Constant) for k_ in upd.keys):
+                hit = next((v_ for k_, v_ in zip(upd.keys, upd.values) if k_.value == a.attr), None)
+                a = hit if hit is not None else ast.copy_location(ast.Attribute(value=a.value.func.value, attr=a.attr, ctx=ast.Load()), a)
+                continue
+            if upd is None and not a.value.args:
+                a = ast.copy_location(ast.Attribute(value=a.value.func.value, attr=a.attr, ctx=ast.Load()), a)
+                continue
+        break
+    return a
+
+
 def handover(prog, fi, callee_qual, want, depth=1):
     """check how `fi` hands values to the package function `callee_qual`.  want: {callee parameter: acceptable source texts}; a source is
     the text of the argument after flow-sensitive expansion (`self.run_params.nxseg`, a parameter name of fi, `self.result.S_val`, ...).
@@ -2749,6 +2777,7 @@ def handover(prog, fi, callee_qual, want, depth=1):
             if a is None:
                 out.append((c, p_, None, f"argument for `{p_}` could not be expressed in the caller's scope"))
                 continue
+            a = updated_copy_field(a)
             if isinstance(a, ast.IfExp) and isinstance(a.orelse, ast.Name) and a.orelse.id == CALLEE_DEFAULT and isinstance(a.test, ast.Compare) \
                     and len(a.test.ops) == 1 and isinstance(a.test.ops[0], ast.IsNot) and isinstance(a.test.comparators[0], ast.Constant) and a.test.comparators[0].value is None:
                 a = a.body          # left out only when None ("not set"): no setting is lost
@@ -3189,7 +3218,8 @@ def repeated_option_rule(prog, run, rule, quals):
                     except Exception:
                         return False, None
                 (okh, vh), (okf, vf) = _lit(dh), (_lit(df) if df is not None else (False, None))
-                if df is not None and not (okh and okf and vh == vf and type(vh) is type(vf)):
+                same_type = type(vh) is type(vf) or (isinstance(vh, (int, float)) and isinstance(vf, (int, float)) and not isinstance(vh, bool) and not isinstance(vf, bool))
+                if df is not None and not (okh and okf and vh == vf and same_type):
                     continue                # another default: another meaning, or deliberately another value
                 retyped = {id(t_) for a_ in ast.walk(fi.node) if isinstance(a_, ast.Assign) and len(a_.targets) == 1 and isinstance(a_.targets[0], ast.Name)
                            and isinstance(a_.value, ast.Call) and isinstance(a_.value.func, ast.Name) and a_.value.func.id in ("float", "int") and len(a_.value.args) == 1
